@@ -165,6 +165,11 @@ Example C09_doc_details :
   cast_val TString TInteger VNull = Ok VNull.
 Proof. vm_compute. repeat split. Qed.
 
+(* regression witnesses: every recorded pre-repair answer of the engine differs from the rule *)
+Example C09_before_fix_witnesses_differ :
+  forallb (fun w => let '(s, d, v, old) := w in negb (res_val_eqb (cast_val s d v) old)) cast_before_fix = true.
+Proof. vm_compute. reflexivity. Qed.
+
 Example C09_nonvacuous :
   doc_allows TInteger TString = true /\ code_allows TInteger TString = true /\ total_pair TInteger TString = true /\
   doc_allows TInteger TDate = false /\ cast_doc TInteger TDate VNull = Err ERR_SEM /\
